@@ -157,7 +157,9 @@ class GlomError(Exception):
         # the traceback module or sys.exc_info(). we saw different stacks when originally
         # developing this in June 2020.
         etype, evalue, _ = sys.exc_info()
-        tb_lines = traceback.format_exc().strip().splitlines()
+        # (only \n ends a line here: a form feed or a unicode line
+        # separator inside the error's message is part of the message)
+        tb_lines = traceback.format_exc().strip().split('\n')
         limit = 0
         for line in reversed(tb_lines):
             if _PKG_DIR_PATH in line:
